@@ -1,0 +1,50 @@
+//go:build verif
+
+package inactivity
+
+import (
+	"github.com/keep-network/keep-core/pkg/net"
+	"github.com/keep-network/keep-core/pkg/protocol/group"
+	"github.com/keep-network/keep-core/pkg/protocol/state"
+)
+
+// Verification hook (build tag verif, property C12): re-exports the claim
+// signing state's Receive method and its message history.
+
+type VerifC12Receiver struct {
+	Receive func(msg net.Message) error
+	Stored  func() int
+}
+
+func VerifC12NewReceiver(
+	self group.MemberIndex,
+	grp *group.Group,
+	membershipValidator *group.MembershipValidator,
+	sessionID string,
+) *VerifC12Receiver {
+	base := state.NewBaseAsyncState()
+	st := &claimSigningState{
+		BaseAsyncState: base,
+		member: &signingMember{
+			memberIndex:         self,
+			group:               grp,
+			membershipValidator: membershipValidator,
+			sessionID:           sessionID,
+		},
+	}
+	return &VerifC12Receiver{st.Receive, func() int {
+		return len(base.GetAllReceivedMessages((&claimSignatureMessage{}).Type()))
+	}}
+}
+
+func VerifC12NewMessage(
+	senderID group.MemberIndex,
+	publicKey []byte,
+	sessionID string,
+) net.TaggedMarshaler {
+	return &claimSignatureMessage{
+		senderID:  senderID,
+		publicKey: publicKey,
+		sessionID: sessionID,
+	}
+}
